@@ -1612,13 +1612,33 @@ pub fn run(cfg: &Cfg) {
     for s in scripts {
         scripted_history(&mut out, &pool, &mut rng, s);
     }
+    // one body collecting 24 and 45 descriptors (beyond any plausible per-message limit), with failing pushes on the way
+    for groups in [8usize, 15] {
+        let mut sc = String::from("o0 o1 w0 w1 nb");
+        for g in 0..groups {
+            sc.push_str(" p0:h0,h1,h0:multi3");
+            if g % 3 == 2 {
+                sc.push_str(" p0:h1,bad:multibad p0:h0,bad:structfull");
+            }
+        }
+        sc.push_str(" u0:0 t2 rs0 p0:h1:plain db0 dh0 dh1");
+        out.hit("scripted_many_descriptors");
+        scripted_history(&mut out, &pool, &mut rng, &sc);
+    }
     let (n, maxlen) = if cfg.thorough { (4000, 40) } else { (300, 12) };
     for _ in 0..n {
+        if rng.chance(1, 8) {
+            // bodies that collect many descriptors (beyond any plausible internal per-message limit)
+            let len = rng.range(20, 50) as usize;
+            out.hit("history_many_descriptors");
+            random_history(&mut out, &pool, &mut rng, len, 40);
+            continue;
+        }
         let len = rng.range(3, maxlen) as usize;
         random_history(&mut out, &pool, &mut rng, len, 4);
     }
     out.finish(
-        "seeded random histories over real descriptors (temp files with distinct inodes): userOpen / wrap / userClose, bodies with pushes at top level and nested (struct, pair, array, variant, dict value, &dyn AsRawFd, push_param2/3/params), failing multi-pushes (taken handle at any position, element with a NUL string), reset, drop, send through a real DuplexConn to a scripted peer that echoes the message with its descriptors, peer-made messages (also with indices beyond the list and with a header the decoder refuses), get_next_message, unmarshal of any value, take / get / dup / clone / drop in random order; every history ends by dropping everything in random order and closing the caller's descriptors; /proc/self/fd + fstat audited after every step; plus 5 fixed scenarios; quick 300 histories of <= 12 ops, thorough 4000 of <= 40 ops, up to 4 descriptors per message (12 in the over-limit scenario); distinct by request line; non-trivial = at least one push and 4 steps",
+        "seeded random histories over real descriptors (temp files with distinct inodes): userOpen / wrap / userClose, bodies with pushes at top level and nested (struct, pair, array, variant, dict value, &dyn AsRawFd, push_param2/3/params), failing multi-pushes (taken handle at any position, element with a NUL string), reset, drop, send through a real DuplexConn to a scripted peer that echoes the message with its descriptors, peer-made messages (also with indices beyond the list and with a header the decoder refuses), get_next_message, unmarshal of any value, take / get / dup / clone / drop in random order; every history ends by dropping everything in random order and closing the caller's descriptors; /proc/self/fd + fstat audited after every step; plus 5 fixed scenarios; quick 300 histories of <= 12 ops, thorough 4000 of <= 40 ops, up to 4 descriptors per message (12 in the over-limit scenario; one history in eight has 20-50 operations and lets a body collect up to 40); distinct by request line; non-trivial = at least one push and 4 steps",
         false,
     );
 }
